@@ -8,7 +8,7 @@ from .core import enc, dec, close
 from feems.components_model.utility import IntegrationMethod
 
 
-def gen_inputs(rng, spec, n=None, engines_ok=None):
+def gen_inputs(rng, spec, n=None, engines_ok=None, pti_status_varies=False):
     if n is None:
         n = int(rng.choice([1, 2, 3, 5, 8]))
     if engines_ok is None:
@@ -45,7 +45,9 @@ def gen_inputs(rng, spec, n=None, engines_ok=None):
             first_shaft = first_shaft or shaft
             inp["comp"][c["name"]] = {"shaft": shaft,
                                       "full": [bool(rng.random() < 0.25) for _ in range(n)],
-                                      "status": [True] * n}
+                                      # the shaft balance does not ask whether the PTI/PTO is switched on (its electrical side does):
+                                      # a shaft-only calculation may carry any on/off series for it
+                                      "status": [bool(rng.random() < 0.7) for _ in range(n)] if (pti_status_varies and rng.random() < 0.4) else [True] * n}
     inp["dtype"]["power"] = str(rng.choice(["float", "int"], p=[0.8, 0.2]))      # whole-number series in integer arrays
     if inp["dtype"]["power"] == "int":
         for d in inp["comp"].values():
@@ -149,7 +151,7 @@ def compare_with_model(ctx, spec, inp, obs, where, tagprefix=""):
 def gen_case(rng, idx, **kw):
     spec = plants.gen_mechanical_plant(rng, **kw)
     plants.mark_int_ratings(rng, spec)
-    return {"idx": idx, "spec": spec, "inputs": gen_inputs(rng, spec)}
+    return {"idx": idx, "spec": spec, "inputs": gen_inputs(rng, spec, pti_status_varies=True)}
 
 
 def run_balance(case):
